@@ -1,5 +1,7 @@
 import Uflow.Model.HalfConn
 import Uflow.Lemmas.SysThm
+import Uflow.Lemmas.SysPassInv
+import Uflow.Lemmas.SysPassAlloc
 import Uflow.Props.C01
 
 /-!
@@ -298,7 +300,9 @@ this (honest) sender the situation of `C02_overtake_witness_hostile_lead` — th
 Reliable packet that never arrived — cannot occur, although the network may lose, duplicate and
 reorder datagrams at will. (Not proved here: that a completely received Reliable packet is also taken
 out — handed to the sink — before the base passes it; this is the completeness of the delivery pass of
-`receive`, which none of the receiver theorems covers.) -/
+`receive`, which none of the receiver theorems covers. It is proved below:
+`C02_sys_reliable_taken_before_passed`, `C02_sys_reliable_delivered_before_passed`,
+`C02_sys_no_skip_full`.) -/
 theorem C02_sys_window_waits_for_reliable (w k b a m : Nat) (hw : w ≤ 2^16) (hk : k ≤ 19) (hb : b < 2^20)
     (ops : List SOp) (s : Sys) (h : runS (initS w (2^k) b a m) ops = .ok s) (s' : Sys)
     (hs : stepS s .recv = .ok s') (j : Nat) (x : Emitted) (hx : s.hist.emitted[j]? = some x)
@@ -307,6 +311,123 @@ theorem C02_sys_window_waits_for_reliable (w k b a m : Nat) (hw : w ≤ 2^16) (h
   have hinv := C01_sys_reach w k b a m (by omega) hk hb ops s h
   rw [widx_eq hinv.rcv.inv, getSlot_eq]
   exact window_waits (wOk_pow k hk) hw hinv hs j x hx hrel h1 h2
+
+/-- Every state of a system run with `w ≤ 2^16` satisfies the delivery invariant `Sys.PInv`
+(`Uflow/Lemmas/SysPassInv.lean`): the `channel_ready_flags` are live (an undelivered packet that passes
+the delivery test of `receive` has its channel's flag set), and every Reliable emitted packet the
+receive window base has passed is in the log. The core is the completeness of the delivery pass of
+`receive` (`Sys.deliverLoopT_done`): with live ready flags and honest channel parent leads, the pass
+leaves no packet behind that passes its test. -/
+theorem C02_sys_reach_delivery (w k b a m : Nat) (hw : w ≤ 2^16) (hk : k ≤ 19) (hb : b < 2^20) (ops : List SOp)
+    (s' : Sys) (h : runS (initS w (2^k) b a m) ops = .ok s') : PInv (2^k) s' :=
+  pinv_run (wOk_pow k hk) hw ops (sinv_init w (2^k) b a m (Nat.two_pow_pos k) hb) (pinv_init w (2^k) b a m) h
+
+/-- **Every Reliable packet the receive window has passed was taken out of the window first**
+(`w ≤ 2^16`). If the receive window base has moved past the emission position `j` of a Reliable
+emitted packet `x` (`j < s'.rcv.adv`), the log contains an entry with unwrapped id `j`: `receive` took
+the packet out of the window — it did not reach the branch of `advance_window` that drops the data of
+a slot whose data flag is still set ("its sender violated the parent lead rules"). The entry's
+payload is `x.data`, handed to the sink, unless the packet exceeded the receiver's allocation limit
+(`data = none`); `C02_sys_reliable_delivered_before_passed` excludes that when the sender's limit is
+not above the receiver's. -/
+theorem C02_sys_reliable_taken_before_passed (w k b a m : Nat) (hw : w ≤ 2^16) (hk : k ≤ 19) (hb : b < 2^20)
+    (ops : List SOp) (s' : Sys) (h : runS (initS w (2^k) b a m) ops = .ok s')
+    (j : Nat) (x : Emitted) (hx : s'.hist.emitted[j]? = some x) (hrel : x.mode = .reliable)
+    (hj : j < s'.rcv.adv) :
+    ∃ e ∈ s'.rcv.log, e.uid = j ∧ e.chan = x.channelId ∧ (e.data = none ∨ e.data = some x.data) := by
+  have hp := C02_sys_reach_delivery w k b a m hw hk hb ops s' h
+  obtain ⟨e, he, hu⟩ := hp.passed j x hx hrel hj
+  obtain ⟨em, hem, -, -, -, hc, -, -, hdata⟩ :=
+    C01_sys_delivered_is_emitted w k b a m (by omega) hk hb ops s' h e he
+  rw [hu, hx] at hem
+  cases hem
+  refine ⟨e, he, hu, hc, ?_⟩
+  cases hd : e.data with
+  | none => exact Or.inl rfl
+  | some y => exact Or.inr (by rw [hdata y hd])
+
+/-- **A Reliable packet is never skipped on its channel** (`w ≤ 2^16`): `C02_sys_no_skip` without its
+second alternative. Let `x` be a Reliable packet emitted at position `j` on some channel, and let `e`
+be a packet of the same channel, emitted later (`j < e.uid`), that `receive` takes out of the receive
+window. Then an EARLIER log entry `e'` has unwrapped id `j` (and `x`'s channel): `x` was taken out of
+the window before `e`. (`e'.data` is `x`'s payload, `C01_sys_delivered_is_emitted`, unless `x` exceeded
+the receive allocation limit.) -/
+theorem C02_sys_no_skip_full (w k b a m : Nat) (hw : w ≤ 2^16) (hk : k ≤ 19) (hb : b < 2^20)
+    (ops : List SOp) (s' : Sys) (h : runS (initS w (2^k) b a m) ops = .ok s')
+    (l1 : List LogE) (e : LogE) (l2 : List LogE) (hl : s'.rcv.log = l1 ++ e :: l2)
+    (j : Nat) (x : Emitted) (hx : s'.hist.emitted[j]? = some x) (hrel : x.mode = .reliable)
+    (hch : x.channelId = e.chan) (hj : j < e.uid) :
+    ∃ e' ∈ l1, e'.uid = j ∧ e'.chan = e.chan := by
+  rcases C02_sys_no_skip w k b a m hw hk hb ops s' h l1 e l2 hl j x hx hrel hch hj with hearly | hwb
+  · exact hearly
+  · have hp := C02_sys_reach_delivery w k b a m hw hk hb ops s' h
+    obtain ⟨e', he', hu⟩ := hp.hist l1 e l2 hl j x hx hrel hwb
+    refine ⟨e', he', hu, ?_⟩
+    obtain ⟨em, hem, -, -, -, hc, -⟩ := C01_sys_delivered_is_emitted w k b a m (by omega) hk hb ops s' h e'
+      (by rw [hl]; exact List.mem_append.mpr (Or.inl he'))
+    rw [hu, hx] at hem
+    cases hem
+    rw [hc, hch]
+
+/-- Every state of a system run with `w ≤ 2^16` in which the sender's allocation ceiling is not above
+the receiver's (`allocCeil a ≤ allocCeil m`; in the library the sender's limit `tx_alloc_limit` IS the
+receiver's advertised limit) satisfies the allocation invariant `Sys.AInv`
+(`Uflow/Lemmas/SysPassAlloc.lean`): every assembly entry of the receive window belongs to a packet
+that is still in the send window and is charged at most the sender's `alloc_size` for it, so the
+receiver's `alloc` never exceeds the sender's (C05 / C06: at most the ceiling) and `try_add` never
+takes its "exceeds the allocation limit" branch. -/
+theorem C02_sys_reach_alloc (w k b a m : Nat) (hw : w ≤ 2^16) (hk : k ≤ 19) (hb : b < 2^20)
+    (ham : allocCeil a ≤ allocCeil m) (ops : List SOp)
+    (s' : Sys) (h : runS (initS w (2^k) b a m) ops = .ok s') : AInv (2^k) (allocCeil a) s' :=
+  ainv_run (wOk_pow k hk) hw ham ops (sinv_init w (2^k) b a m (Nat.two_pow_pos k) hb) (pinv_init w (2^k) b a m)
+    (ainv_init w (2^k) b a m) h
+
+/-- **With an honest sender no packet is passed over for exceeding the allocation limit**
+(`w ≤ 2^16`, `allocCeil a ≤ allocCeil m`): every log entry carries the payload of the emitted packet
+with its unwrapped id — every packet `receive` takes out of the window is handed to the sink,
+byte-exact. (Without the hypothesis on the limits it fails: `C02_sys_refused_witness`.) -/
+theorem C01_sys_delivered_payload (w k b a m : Nat) (hw : w ≤ 2^16) (hk : k ≤ 19) (hb : b < 2^20)
+    (ham : allocCeil a ≤ allocCeil m) (ops : List SOp) (s' : Sys)
+    (h : runS (initS w (2^k) b a m) ops = .ok s') :
+    ∀ e ∈ s'.rcv.log, ∃ em : Emitted, s'.hist.emitted[e.uid]? = some em ∧ e.data = some em.data := by
+  intro e he
+  have ha := C02_sys_reach_alloc w k b a m hw hk hb ham ops s' h
+  obtain ⟨em, hem, -, -, -, -, -, -, hdata⟩ :=
+    C01_sys_delivered_is_emitted w k b a m (by omega) hk hb ops s' h e he
+  refine ⟨em, hem, ?_⟩
+  cases hd : e.data with
+  | none => exact absurd hd (ha.ld e he)
+  | some y => rw [hdata y hd]
+
+/-- **Every Reliable packet the receive window has passed was delivered to the application,
+byte-exact** (`w ≤ 2^16`, `allocCeil a ≤ allocCeil m`). If the receive window base has moved past the
+emission position `j` of a Reliable emitted packet `x` (`j < s'.rcv.adv`), the log contains an entry
+with unwrapped id `j` whose payload — handed to the sink by that `receive` call — is `x.data`. So in
+this system `advance_window` never drops the data of a Reliable packet, and a Reliable packet is
+never lost: the base (and with it, through the acknowledgements, the send window) waits until it has
+been completely received (`C02_sys_window_waits_for_reliable`) AND delivered. -/
+theorem C02_sys_reliable_delivered_before_passed (w k b a m : Nat) (hw : w ≤ 2^16) (hk : k ≤ 19)
+    (hb : b < 2^20) (ham : allocCeil a ≤ allocCeil m) (ops : List SOp) (s' : Sys)
+    (h : runS (initS w (2^k) b a m) ops = .ok s')
+    (j : Nat) (x : Emitted) (hx : s'.hist.emitted[j]? = some x) (hrel : x.mode = .reliable)
+    (hj : j < s'.rcv.adv) :
+    ∃ e ∈ s'.rcv.log, e.uid = j ∧ e.data = some x.data := by
+  obtain ⟨e, he, hu, -, -⟩ := C02_sys_reliable_taken_before_passed w k b a m hw hk hb ops s' h j x hx hrel hj
+  obtain ⟨em, hem, hd⟩ := C01_sys_delivered_payload w k b a m hw hk hb ham ops s' h e he
+  rw [hu, hx] at hem
+  cases hem
+  exact ⟨e, he, hu, hd⟩
+
+/-- The hypothesis on the allocation limits is needed: sender limit 100000, receiver limit 1000
+(ceiling 1448). A Reliable packet of 1500 bytes (two fragments, allocation size 2896) is emitted and
+both fragments arrive; `try_add` refuses it, `receive` takes it out of the window without handing
+anything to the sink (`data = none`) and the window base passes it. -/
+theorem C02_sys_refused_witness :
+    (match runS (initS 8 (2^3) 0 100000 1000)
+        [.enq (List.replicate 1500 7) 0 .reliable 0, .emit 0, .deliver 0, .deliver 1, .recv] with
+     | .ok s => decide (s.rcv.adv = 1 ∧ (s.rcv.log.map fun e => (e.uid, e.data)) = [(0, none)] ∧
+         (s.hist.emitted.map fun x => (x.mode, x.data.length)) = [(.reliable, 1500)])
+     | .error _ => false) = true := by decide +kernel
 
 /-! ## The network hypotheses -/
 
@@ -429,5 +550,30 @@ example : (8 : Nat) + 2^3 ≤ 2^20 ∧ (∀ op ∈ exOps.take 16, isAck op = fal
      | .ok s => s.rcv.log.length == 3 && s.snd.win.length == 3
      | .error _ => false) = true := by
   refine ⟨by decide, by decide, by decide +kernel⟩
+
+/-- Hypotheses of `C02_sys_reach_alloc`, `C01_sys_delivered_payload`,
+`C02_sys_reliable_delivered_before_passed` and `C02_sys_reliable_taken_before_passed` for the run
+`exOps`: equal limits (`allocCeil 100000 ≤ allocCeil 100000`), the window base has passed position 0
+(`adv = 4`), the packet emitted there (`A = [1, 1]`) is Reliable, and the log has an entry with
+unwrapped id 0 and payload `[1, 1]`. -/
+example : allocCeil 100000 ≤ allocCeil 100000 ∧
+    (match runS (initS 8 (2^3) (2^20 - 2) 100000 100000) exOps with
+     | .ok s =>
+       decide (0 < s.rcv.adv ∧ (s.hist.emitted.map fun x => (x.mode, x.data))[0]? = some (.reliable, [1, 1]) ∧
+         (s.rcv.log.map fun e => (e.uid, e.data))[1]? = some (0, some [1, 1]))
+     | .error _ => false) = true := by
+  refine ⟨Nat.le_refl _, by decide +kernel⟩
+
+/-- Hypotheses of `C02_sys_no_skip_full` for that run, in the case the first alternative of
+`C02_sys_no_skip` does not cover by itself: `e` = the entry of `D` (unwrapped id 3, channel 0, taken
+when the window base was at 3), `j = 0` (`A`, Reliable, channel 0, `0 < e.wb`); the earlier entry
+with unwrapped id 0 is the second entry of the log. -/
+example :
+    (match runS (initS 8 (2^3) (2^20 - 2) 100000 100000) exOps with
+     | .ok s =>
+       decide (((s.rcv.log.drop 3).map fun e => (e.uid, e.chan, e.wb)) = [(3, 0, 3)] ∧
+         ((s.rcv.log.take 3).map fun e => (e.uid, e.chan)) = [(1, 1), (0, 0), (2, 0)] ∧
+         (s.hist.emitted.map fun x => (x.mode, x.channelId))[0]? = some (.reliable, 0))
+     | .error _ => false) = true := by decide +kernel
 
 end Uflow.Props.C01Sys
